@@ -3,7 +3,10 @@ package main
 // Contracts of the small marker helpers in util.go that the merge rules (list "$replace: true"), the
 // $output rules and the tools take for granted.
 
-import "fmt"
+import (
+	"fmt"
+	"strings"
+)
 
 // ruleMarkerHelpers(prefix): <prefix>.marker
 func ruleMarkerHelpers(rule string) func(p *Prog, r *Result) {
@@ -75,6 +78,108 @@ func ruleMarkerHelpers(rule string) func(p *Prog, r *Result) {
 				return true, ""
 			}
 			return false, "an entry without the marker ends the search (" + pa.End + ")"
+		})
+	}
+}
+
+// rulePopListMarker(rule): popListMapBoolValue(l, k, v) — the list form of the $output / $replace markers. When
+// the list carries the marker, every entry that carries it is either the bare marker entry (removed) or an error
+// (a marker next to other keys); it is never kept, and entries without the marker are kept as they are.
+func rulePopListMarker(rule string) func(p *Prog, r *Result) {
+	return func(p *Prog, r *Result) {
+		pr := newPSRule(p, r, rule, "bkl.popListMapBoolValue", PSOpts{})
+		kP, vP := mParam("k"), mParam("v")
+		// the element the filtering loop (the last loop entered) is looking at
+		cur := func(pa *Path) TM {
+			n, loops := -1, map[int]bool{}
+			for _, g := range pa.Guards {
+				if g.Kind == "itermore" && !g.Neg && g.A != nil && g.A.Op == "range" {
+					n = g.A.N
+					loops[g.A.N] = true
+				}
+			}
+			if len(loops) < 2 {
+				return nil // still in the search that decides whether the list carries the marker at all
+			}
+			return func(t *T) bool { return t != nil && t.Op == "elem" && t.N == n }
+		}
+		marker := func(pa *Path, el TM) int {
+			m := guardPol(pa, "kind", el, "map")
+			h := guardPol(pa, "has", el, TM(kP))
+			b := guardPol(pa, "kind", mLookup(el, kP), "bool")
+			e := guardPol(pa, "eq", mOr(mLookup(el, kP), vP), nil)
+			if m == 1 && h == 1 && b == 1 && e == 1 {
+				return 1
+			}
+			if m == -1 || h == -1 || b == -1 || e == -1 {
+				return -1
+			}
+			return 0
+		}
+		inFilter := selectPaths(pr.paths, func(pa *Path) bool { return cur(pa) != nil && (pa.End == "iter" || isFailure(pa)) })
+		kept := func(pa *Path, el TM) (n int, self bool) {
+			self = true
+			for _, c := range pa.Carried {
+				if c.Op != "append" || len(c.Args) != 2 || c.Args[1].IsNil() {
+					continue
+				}
+				if c.Args[1].Op == "lit" {
+					for _, x := range c.Args[1].Args {
+						n++
+						if !el(x) {
+							self = false
+						}
+					}
+					continue
+				}
+				n++
+				self = false
+			}
+			return
+		}
+		pr.all("an entry carrying the marker is removed when it is the bare marker, an error when it has other keys, never kept", selectPaths(inFilter, func(pa *Path) bool { return marker(pa, cur(pa)) == 1 }),
+			"dropped with no other keys; ErrExtraKeys otherwise", func(pa *Path) (bool, string) {
+				el := cur(pa)
+				if isFailure(pa) {
+					if wraps(lastResult(pa), "ErrExtraKeys") {
+						return true, ""
+					}
+					return false, "unexpected error " + errClass(lastResult(pa))
+				}
+				if n, _ := kept(pa, el); n != 0 {
+					return false, "an entry that carries the marker next to other keys stays in the list while the list is treated as marked: the whole list is selected (or hidden) although no marker entry asked for it"
+				}
+				bare := false
+				for _, g := range pa.Guards {
+					if g.Kind == "len" && g.Const == "==0" && !g.Neg {
+						bare = true
+					}
+					if g.Kind == "len" && g.Const == "==1" && !g.Neg && g.A != nil && el(g.A) {
+						bare = true
+					}
+				}
+				if !bare {
+					return false, "a marker entry with other keys is dropped silently"
+				}
+				return true, ""
+			})
+		pr.all("an entry is kept only when it is known not to carry the marker", selectPaths(inFilter, func(pa *Path) bool {
+			n, _ := kept(pa, cur(pa))
+			return pa.End == "iter" && n > 0
+		}), "kept entries were tested: not a map, key absent, not a boolean, or the other value", func(pa *Path) (bool, string) {
+			if marker(pa, cur(pa)) == -1 {
+				return true, ""
+			}
+			return false, "an entry is kept without looking whether it carries the marker (for instance because it has other keys): the list counts as marked although that entry stays in it"
+		})
+		pr.all("entries without the marker are kept as they are", selectPaths(inFilter, func(pa *Path) bool { return marker(pa, cur(pa)) == -1 }), "appended unchanged", func(pa *Path) (bool, string) {
+			if isFailure(pa) {
+				return false, "an entry without the marker is an error"
+			}
+			if n, self := kept(pa, cur(pa)); n != 1 || !self {
+				return false, "an entry without the marker is dropped or altered"
+			}
+			return true, ""
 		})
 	}
 }
@@ -155,10 +260,11 @@ func ruleStripMarker(rule string) func(p *Prog, r *Result) {
 }
 
 // ruleSmallContracts(rule, which...): one-line helpers whose meaning other rules assume.
-//   matchdoc : matchDoc(doc, pat) is match(doc.Data, pat)
-//   getcopy  : getCopy resolves the reference against (current document, document list) and returns a deep copy of what it found
-//   getformat: GetFormat(name) is the entry of the format table under exactly that name, unknown names are errors
-//   stdin    : isStdin(path) compares the base name without its extension with "-"
+//
+//	matchdoc : matchDoc(doc, pat) is match(doc.Data, pat)
+//	getcopy  : getCopy resolves the reference against (current document, document list) and returns a deep copy of what it found
+//	getformat: GetFormat(name) is the entry of the format table under exactly that name, unknown names are errors
+//	stdin    : isStdin(path) compares the base name without its extension with "-"
 func ruleSmallContracts(rule string, which ...string) func(p *Prog, r *Result) {
 	return func(p *Prog, r *Result) {
 		for _, w := range which {
@@ -220,6 +326,35 @@ func ruleSmallContracts(rule string, which ...string) func(p *Prog, r *Result) {
 					}
 					return false, "the name is not looked up in the format table"
 				})
+			case "pophelpers":
+				// the pop*/get*/has* helpers of util.go look at (and pop from a copy of) their argument: the tree they
+				// are handed — a live document during evaluation, the shared body of a $repeat — is never written
+				o := p.Own()
+				n := 0
+				for _, fn := range p.Funcs {
+					pk := fnPkg(fn)
+					if pk == nil || shortPkg(pk.Pkg.Path()) != "bkl" || fn.Parent() != nil || len(fn.Params) == 0 {
+						continue
+					}
+					name := p.FuncName(fn)
+					base := strings.TrimPrefix(name, "bkl.")
+					if !(strings.HasPrefix(base, "pop") || strings.HasPrefix(base, "has") || strings.HasPrefix(base, "getMap") || strings.HasPrefix(base, "getList")) || strings.Contains(base, ".") {
+						continue
+					}
+					if !isRefType(fn.Params[0].Type()) {
+						continue
+					}
+					if _, pinned := loadAnchors().Params[name]; !pinned {
+						continue // a helper added later: its contract is not one the rules rely on
+					}
+					n++
+					if mut, why := o.Mut(fn, 0); mut {
+						r.Fail(rule, name+" / leaves its argument as it found it", p.Pos(fn.Pos()), "the helper writes into the container it is handed ("+why+"): popping a marker or directive key changes the caller's tree (a referenced subtree, the body shared by the copies of a $repeat, a document kept by the parser)")
+					} else {
+						r.OK(rule, name+" / leaves its argument as it found it", p.Pos(fn.Pos()), "no write reaches the first parameter (mutation summary)")
+					}
+				}
+				r.Floor(rule, "pop/has/get helpers examined", n, 8)
 			case "stdin":
 				pr := newPSRule(p, r, rule, "bkl.isStdin", PSOpts{})
 				pr.all("only the name - (with any extension) stands for standard input", pr.paths, `a comparison of the path's base name, minus its extension, with "-"`, func(pa *Path) (bool, string) {
